@@ -189,7 +189,7 @@ pub fn op_strategy(w: &Weights) -> BoxedStrategy<Op> {
                 .prop_map(|(m, kind, ts, target)| Op::RogueCommit { m, kind, ts, target })
                 .boxed(),
         ));
-        let pk = prop::sample::select(vec![P::Remove, P::Remove, P::Add, P::GceRename, P::SelfUpdate]);
+        let pk = prop::sample::select(vec![P::Remove, P::Remove, P::Add, P::GceRename, P::SelfUpdate, P::UpdateForeignIdentity]);
         v.push((
             w.rogue_proposal,
             (m, pk, ts.clone(), any::<u16>())
